@@ -11,7 +11,7 @@ Do ==
        [] sel = 4 -> \E n, x \in Nodes : MLJoin(n, x) \/ MLLeave(n, x)
        [] sel = 5 -> phase = "run" /\ ops < MaxOps /\ \E n, x \in Nodes : OpForceLeave(n, x, 0)   \* prune sleeps BroadcastTimeout inside the handler; covered by the replica family
        [] sel = 6 -> phase = "run" /\ ops < MaxOps /\ \E n \in Nodes : OpLeaveA(n) \/ OpLeave(n)
-       [] sel = 7 -> phase = "run" /\ ops < MaxOps /\ \E n \in Nodes : OpCrash(n)
+       [] sel = 7 -> phase = "run" /\ ops < MaxOps /\ ((\E n \in Nodes : OpCrash(n)) \/ (\E n2, m2 \in Nodes : OpRejoin(n2, m2)))
        [] sel = 8 -> \/ \E n \in Nodes : OpLeaveB(n)
                      \/ phase = "run" /\ ops < MaxOps /\ \E n, m \in Nodes : OpJoin(n, m)
        [] sel = 9 -> IF ops >= MaxOps THEN BeginSync ELSE \E n \in Nodes, m \in pool : Deliver(n, m)
